@@ -124,6 +124,35 @@ def subst(t: Term, mapping: Dict[int, Term], _memo=None) -> Term:
     return r
 
 
+def xor_canon(*ts: Term) -> Term:
+    """canonical XOR: flattened, constants folded, equal operands cancelled, operands ordered by term id"""
+    c = 0
+    leaves: Dict[int, Term] = {}
+    stack = list(ts)
+    while stack:
+        t = stack.pop()
+        while t.op == "snap":
+            t = t.args[0]
+        if t.op == "xor":
+            stack.extend(t.args[0])
+        elif t.op == "bin" and t.args[0] == "BitXor":
+            stack.extend([t.args[1], t.args[2]])
+        elif is_const(t) and isinstance(cval(t), int) and not isinstance(cval(t), bool):
+            c ^= cval(t)
+        elif t.uid in leaves:
+            del leaves[t.uid]
+        else:
+            leaves[t.uid] = t
+    ls = [leaves[k] for k in sorted(leaves)]
+    if c:
+        ls.append(C(c))
+    if not ls:
+        return C(0)
+    if len(ls) == 1:
+        return ls[0]
+    return mk("xor", tuple(ls))
+
+
 _BIN = {"Add": "+", "Sub": "-", "Mult": "*", "FloorDiv": "//", "Div": "/", "Mod": "%", "Pow": "**", "LShift": "<<", "RShift": ">>", "BitOr": "|", "BitAnd": "&", "BitXor": "^", "MatMult": "@"}
 _CMP = {"Eq": "==", "NotEq": "!=", "Lt": "<", "LtE": "<=", "Gt": ">", "GtE": ">=", "In": "in", "NotIn": "not in", "Is": "is", "IsNot": "is not"}
 
